@@ -339,3 +339,41 @@ def written_moved_written(ctx):
         ctx.prove("second-write/counts-are-those-derived-from-the-chops-at-the-moved-geometry",
                   [ax.count for b in r["mesh"].blocks for ax in b.axes] == [ax.count for b in r["fresh"].blocks for ax in b.axes])
         ctx.prove("second-write/same-file-as-a-fresh-model-of-the-moved-geometry", "".join(text.split()) == "".join(r["fresh_written"][0].split()))
+
+
+@proof("C02", "scenario/multigrading-with-uniform-divisions/opposed-neighbour", cases=["chopped-first", "neighbour-first"], level="S", samples=1,
+       functions=["classy_blocks.grading.grading:Grading.inverted", "classy_blocks.items.wires.manager:WirePropagateManager.copy_neighbours",
+                  "classy_blocks.lists.block_list:BlockList.propagate_gradings"],
+       note="executed contract: two divisions of unequal length and count, both with expansion 1, on a block whose un-chopped neighbour "
+            "numbers its corners the other way round along that direction: every vertical edge of both blocks carries the divisions in the "
+            "same physical order (round 5: 'uniform cells look the same from both ends')")
+def multigrading_opposed(ctx):
+    import classy_blocks as cb
+
+    a = cb.Box([0.0, 0.0, 0.0], [1.0, 1.0, 1.0])
+    b = cb.Loft(cb.Face([[1, 0, 1], [1, 1, 1], [2, 1, 1], [2, 0, 1]]), cb.Face([[1, 0, 0], [1, 1, 0], [2, 1, 0], [2, 0, 0]]))
+    a.chop(0, count=2)
+    a.chop(1, count=2)
+    a.chop(2, length_ratio=0.25, count=2)
+    a.chop(2, length_ratio=0.75, count=12)
+    b.chop(1, count=3)      # its own axis 1 runs along x
+    mesh = Mesh()
+    for op in ([a, b] if ctx.case == "chopped-first" else [b, a]):
+        mesh.add(op)
+    mesh.assemble()
+    _, exc = ctx.call(mesh.grade)
+    ctx.prove("grading-succeeds", exc is None, exc=repr(exc)[:200])
+    if exc is not None:
+        return
+    upward = [[0.25, 2, 1.0], [0.75, 12, 1.0]]
+    ok, seen = True, []
+    for blk in mesh.blocks:
+        for w in blk.axes[2].wires:
+            z0, z1 = float(w.vertices[0].position[2]), float(w.vertices[1].position[2])
+            spec = [[float(s[0]), int(s[1]), float(s[2])] for s in w.grading.specification]
+            want = upward if z1 > z0 else upward[::-1]
+            seen.append((blk.index, z1 > z0, spec))
+            if len(spec) != 2 or any(abs(x - y) > 1e-9 for s, t in zip(spec, want) for x, y in zip(s, t)):
+                ok = False
+    ctx.prove("every-vertical-edge-carries-the-divisions-in-the-same-physical-order", ok, seen=str(seen)[:400])
+    ctx.prove("both-blocks-have-fourteen-cells-in-that-direction", all(blk.axes[2].count == 14 for blk in mesh.blocks))
